@@ -32,6 +32,9 @@ pub struct Inventory {
     pub structs: BTreeMap<String, usize>,
     pub struct_fields: BTreeMap<String, Vec<(String, String)>>,
     pub enums: BTreeMap<String, usize>,
+    /// Normalised `#[repr(..)]` argument and variant names of every enum.
+    pub enum_reprs: BTreeMap<String, String>,
+    pub enum_variants: BTreeMap<String, Vec<String>>,
     pub fns: BTreeMap<String, usize>,
     /// Normalised return type of every top-level function.
     pub fn_rets: BTreeMap<String, Option<String>>,
@@ -120,6 +123,17 @@ pub fn inventory(text: &str) -> Result<Inventory, String> {
             syn::Item::Enum(e) => {
                 let n = e.ident.to_string();
                 *inv.enums.entry(n.clone()).or_insert(0) += 1;
+                for a in &e.attrs {
+                    if a.path().is_ident("repr") {
+                        if let Ok(t) = a.parse_args::<syn::Type>() {
+                            inv.enum_reprs.insert(n.clone(), normalise_type(&t));
+                        }
+                    }
+                }
+                inv.enum_variants.insert(
+                    n.clone(),
+                    e.variants.iter().map(|v| v.ident.to_string()).collect(),
+                );
                 inv.order.push(Top::Enum(n));
             }
             syn::Item::Fn(f) => {
